@@ -676,11 +676,21 @@ def remap_by_types(
             # For each definition try to get typing results out of it.
             # Take the base possible one.
             return_results: List[_MethodTypeReturnInfo] = []
+            found_untyped: Optional[_MethodTypeReturnInfo] = None
             for base_obj in base_obj_list:
                 # Do basic static analysis without doing any call backs.
                 default_args_node, return_annotation_raw = _fill_in_default_arguments(
                     base_obj.method, r_node
                 )
+                if found_untyped is None and base_obj.obj_type is obj_type:
+                    # The object's own class has the method: whatever we learn about the type
+                    # of the result, the call itself is known.
+                    found_untyped = _MethodTypeReturnInfo(
+                        node=default_args_node,
+                        return_type=Any,
+                        full_type_resolution=True,
+                        obj_info=base_obj,
+                    )
                 return_annotation = resolve_type_vars(
                     return_annotation_raw, base_obj.obj_type, at_class=base_obj.method_class
                 )
@@ -708,7 +718,11 @@ def remap_by_types(
                     break
 
             # If we got nothing, then we really do not know what is going on.
-            if len(return_results) == 0:
+            if len(return_results) == 0 and found_untyped is not None:
+                # The method is there, only the type it returns could not be worked out (a type
+                # variable nothing binds, for example).
+                return_results.append(found_untyped)
+            elif len(return_results) == 0:
                 if obj_type != Any:
                     self._found_types[node] = Any
                     logging.getLogger(__name__).warning(
